@@ -69,12 +69,12 @@ func checkC09(w *World, r *Report) {
 	p5(w, r, reach, scope)
 	p6(w, r, reach, scope)
 
-	r.Floor("P-1", 4, "explicit panics / Must* on the input paths, each with its exception")
-	r.Floor("P-2", 6, "payload assertions without comma-ok")
+	r.Floor("P-1", 2, "explicit panics / Must* on the input paths, each with its exception")
+	r.Floor("P-2", 3, "payload assertions without comma-ok")
 	r.Floor("P-3", 8, "slice/index sites on input-derived slices")
 	r.Floor("P-4", 6, "dereferences of may-be-nil results")
-	r.Floor("P-5", 3, "divisions by non-constants")
-	r.Floor("P-6", 4, "pointer fields of decoded request objects and their producers")
+	r.Floor("P-5", 1, "divisions by non-constants")
+	r.Floor("P-6", 2, "pointer fields of decoded request objects and their producers")
 }
 
 // ---- P-1
@@ -756,19 +756,23 @@ func isSliceType(t types.Type) bool {
 
 func p3(w *World, r *Report, reach *Reach, scope []*ssa.Function) {
 	// exceptions with a side condition that is itself checked
+	// under "the choice is negative" / "the choice is not below the number of options"
+	// the validation of a voting transaction has no successful path (C15 Gv-2)
+	choiceMemo := 0
 	choiceGuard := func() bool {
+		if choiceMemo != 0 {
+			return choiceMemo == 1
+		}
+		choiceMemo = 2
 		fn := w.Method("ctrlers/gov", "GovCtrler", "ValidateTrx")
 		if fn == nil {
 			return false
 		}
-		lo, hi := false, false
-		for _, g := range w.GuardsDeep(fn, 2) {
-			if strings.Contains(g.Cond, ".Choice < 0)") {
-				lo = true
-			}
-			if strings.Contains(g.Cond, ".Choice >= int32(len(") && strings.Contains(g.Cond, ".Options))") {
-				hi = true
-			}
+		base := w.evalTxCond(txAbs{typ: 5})
+		lo, _ := w.failsUnder(fn, base, AR(`TrxPayloadVoting\)#0\.Choice$`, "<", `^0$`))
+		hi, _ := w.failsUnder(fn, base, AR(`TrxPayloadVoting\)#0\.Choice$`, ">=", `^int32\(len\(.*\.Options\)\)$`))
+		if lo && hi {
+			choiceMemo = 1
 		}
 		return lo && hi
 	}
@@ -1118,6 +1122,24 @@ var c09NilExceptions = map[string]string{
 	"evm.(*EVMCtrler).ExecuteTrx:deref:FindAccount": "the created contract address was added to the access list by the EVM's create (Berlin rules are active from block 0), so StateDBWrapper.Finish has just created/marked that account in the same overlay",
 }
 
+// nilException: the listed exceptions, and the created-contract lookup wherever
+// it is written (keyed by what is looked up: the address the EVM has just created).
+func (w *World) nilException(exKey string, call *ssa.Call) (string, bool) {
+	if why, ok := c09NilExceptions[exKey]; ok {
+		return why, true
+	}
+	if callName(call.Common()) == "FindAccount" && call.Parent() != nil && strings.HasSuffix(w.FuncPkgPath(call.Parent()), "/ctrlers/vm/evm") {
+		_, a := callRecvArgs(call.Common())
+		if call.Common().IsInvoke() {
+			a = call.Common().Args
+		}
+		if len(a) >= 1 && strings.HasPrefix(w.Canon(a[0]), "crypto.CreateAddress(") && strings.Contains(w.Canon(a[0]), ".Tx.From") && strings.Contains(w.Canon(a[0]), ".Tx.Nonce") {
+			return c09NilExceptions["evm.(*EVMCtrler).ExecuteTrx:deref:FindAccount"], true
+		}
+	}
+	return "", false
+}
+
 func p4(w *World, r *Report, reach *Reach, scope []*ssa.Function) {
 	for _, fn := range scope {
 		name := w.FName(fn)
@@ -1276,7 +1298,7 @@ func p4(w *World, r *Report, reach *Reach, scope []*ssa.Function) {
 							continue
 						}
 					case 1:
-						if why, ok := c09NilExceptions[exKey]; ok {
+						if why, ok := w.nilException(exKey, call); ok {
 							r.OK("P-4", key, "excepted: "+why, site(w, d))
 						} else {
 							r.Violate("P-4", key, "result dereferenced on the branch where the error is non-nil (callee returns nil with every error)", map[string]interface{}{"path": reach.Path(fn)}, site(w, call), site(w, d))
@@ -1292,7 +1314,7 @@ func p4(w *World, r *Report, reach *Reach, scope []*ssa.Function) {
 						continue
 					}
 				}
-				if why, ok := c09NilExceptions[exKey]; ok {
+				if why, ok := w.nilException(exKey, call); ok {
 					r.OK("P-4", key, "excepted: "+why, site(w, d))
 					continue
 				}
